@@ -112,6 +112,27 @@ Theorem memattr_set_frame_target :
 Proof. exact set_frame_target. Qed.
 Print Assumptions memattr_set_frame_target.
 
+(* another initiator of the same target: unchanged unless it resolves to the
+   entry the set's initiator resolves to *)
+Theorem memattr_set_frame_initiator :
+  forall s id o l q l' q' v,
+  Inv s -> to_internal l = Some q -> to_internal l' = Some q' -> set_args_ok s id o (Some q) ->
+  (forall a, get_attr s id = Some a -> need_init a = true) ->
+  (forall g i, find_target (tgs_of s id) (o_type o) (o_gp o) (o_os o) = Some g -> In i (g_inits g) ->
+      match_iloc q (i_loc i) = true -> match_iloc q' (i_loc i) = false) ->
+  match_iloc q' q = false ->
+  let s' := fst (set_value s id (Some o) (Some l) 0 v) in
+  snd (get_value s' id (Some o) (Some l') 0) = snd (get_value s id (Some o) (Some l') 0).
+Proof. exact set_frame_initiator. Qed.
+Print Assumptions memattr_set_frame_initiator.
+
+(* its hypothesis holds e.g. for two different objects, or an object and a cpuset *)
+Theorem memattr_initiators_exclusive :
+  forall q q' l, (match q, q' with ICpu _, ICpu _ => False | _, _ => q <> q' end) ->
+  match_iloc q l = true -> match_iloc q' l = false.
+Proof. exact match_iloc_exclusive. Qed.
+Print Assumptions memattr_initiators_exclusive.
+
 (* ---- enumerations and the *nr convention ---- *)
 Theorem memattr_enumerate_targets_exact :
   forall s id a init max tnull,
@@ -228,6 +249,26 @@ Theorem memattr_survives_dup :
 Proof. intros. split; [now apply dup_Inv|now apply dup_tgs]. Qed.
 Print Assumptions memattr_survives_dup.
 
+(* ---- the internal entry point and the XML replay ---- *)
+(* state after XML export + import + end of load, for ANY source state and any
+   well-formed re-imported topology: the invariants hold again (in particular
+   no duplicate targets, every target/initiator resolved, all cached pointers set) *)
+Theorem memattr_xml_reload_invariant :
+  forall s t', Inv s -> wf_topo t' -> Inv (xml_switch s t') /\ AllOk (xml_switch s t').
+Proof. exact xml_switch_Inv. Qed.
+Print Assumptions memattr_xml_reload_invariant.
+
+(* histories that also contain hwloc_internal_memattr_set_value (target given by
+   the fields of an existing object, initiator NULL or an in-root cpuset) and
+   XML round trips *)
+Theorem memattr_all_histories_ext :
+  forall t ops, wf_topo t -> hist_ok_x (init_state t) ops ->
+  Inv (run (init_state t) ops) /\ AllOk (run (init_state t) ops).
+Proof.
+  intros t ops W H. apply run_InvX; [|assumption]. split; [now apply init_state_Inv|apply init_state_AllOk].
+Qed.
+Print Assumptions memattr_all_histories_ext.
+
 (* ---- default nodeset ---- *)
 Theorem default_nodeset_disjoint_existing :
   forall s set,
@@ -312,6 +353,27 @@ Proof. vm_compute. repeat split. Qed.
 Example ex_default_nodeset :
   NoDup (map o_os (numa_nodes ex_topo)) /\ default_nodeset (init_state ex_topo) 0 = Ok (bs_of_N 3).
 Proof. split; [cbn; repeat constructor; cbn; intuition discriminate|vm_compute; reflexivity]. Qed.
+
+Example ex_hist_ok_x :
+  hist_ok_x (init_state ex_topo)
+    [OISet 2 HWLOC_OBJ_NUMANODE 10 0 (Some (ICpu c01)) 5; OXml ex_topo;
+     OSet 2 (Some ex_numa0) (Some (LObj ex_pu0)) 0 9; OXml ex_topo; OInits 2 (Some ex_numa0) 0 4 false] /\
+  snd (get_initiators (run (init_state ex_topo)
+    [OISet 2 HWLOC_OBJ_NUMANODE 10 0 (Some (ICpu c01)) 5; OXml ex_topo;
+     OSet 2 (Some ex_numa0) (Some (LObj ex_pu0)) 0 9; OXml ex_topo]) 2 (Some ex_numa0) 0 4 false)
+  = Ok (2, [(ICpu c01, 5); (IObj HWLOC_OBJ_PU 6, 9)]).
+Proof.
+  split; [|vm_compute; reflexivity].
+  cbn [hist_ok_x op_ok_x].
+  split; [split; [exists ex_numa0; vm_compute; intuition|split; [exact Logic.I|split; reflexivity]]|].
+  split; [exact ex_wf|]. split; [vm_compute; intuition|]. split; [exact ex_wf|]. split; exact Logic.I.
+Qed.
+
+(* hypotheses of memattr_set_frame_initiator met: two PUs as initiators *)
+Example ex_frame_initiator :
+  let s := run (init_state ex_topo) ex_ops in
+  snd (get_value (fst (set_value s 3 (Some ex_numa0) (Some (LObj ex_pu1)) 0 8)) 3 (Some ex_numa0) (Some (LObj ex_pu0)) 0) = Ok 7.
+Proof. vm_compute. reflexivity. Qed.
 
 (* hypotheses of memattr_get_last_set_included are met by a real state *)
 Example ex_included_hyps :
